@@ -376,3 +376,126 @@ pub fn crash_run(a: &Args) -> i32 {
 pub fn exists(p: &Path) -> bool {
     p.exists()
 }
+
+// ------------------------------------------------------------------------------------------
+// header damage (C12)
+// ------------------------------------------------------------------------------------------
+
+/// hashed bytes of the header record and the page-type byte: damage there must make the
+/// header unusable; anywhere else the pinned layout neither hashes nor reads the byte
+fn significant(off: usize) -> bool {
+    off == 8 || (32..44).contains(&off) || (48..104).contains(&off)
+}
+
+/// jvh damage-run --trace T --raw R --recipes F --profile P --nkeys K --nvals V --out O
+///                [--stride N --skip J] [--masks 1,128,255] [--random N] [--seed S]
+pub fn damage_run(a: &Args) -> i32 {
+    use rand::{rngs::StdRng, Rng, SeedableRng};
+    let raws = load_raw(&a.s("raw", ""));
+    let hists = load_trace(&a.s("trace", ""));
+    let prof = Profile::new(&a.s("profile", "two"), a.n("nkeys", 12) as usize, a.n("nvals", 4) as usize);
+    let out = a.s("out", "/dev/stdout");
+    let progress = format!("{}.progress", out);
+    let skip = a.n("skip", 0);
+    let stride = a.n("stride", 1).max(1);
+    let nrandom = a.n("random", 50);
+    let bstride = a.n("byte-stride", 1).max(1) as usize;
+    let mut rng = StdRng::seed_from_u64(a.n("seed", 1) as u64);
+    let masks: Vec<u8> = a.s("masks", "1,128,255").split(',').map(|x| x.parse::<u16>().unwrap() as u8).collect();
+    let dir = crate::scratch_dir();
+    let mut w = std::io::BufWriter::new(std::fs::File::create(&out).unwrap());
+    let rd = BufReader::new(std::fs::File::open(a.s("recipes", "")).unwrap());
+    let mut images = 0u64;
+    let mut recipes = 0u64;
+    let mut bad = 0u64;
+    let mut outcomes: HashMap<String, u64> = HashMap::new();
+    for (idx, line) in rd.lines().enumerate() {
+        let line = line.unwrap();
+        if (idx as i64) < skip || (idx as i64 - skip) % stride != 0 || line.trim().is_empty() {
+            continue;
+        }
+        let r: Value = serde_json::from_str(&line).expect("recipe");
+        let h = r["h"].as_i64().unwrap_or(0) as usize;
+        if h >= raws.len() || h >= hists.len() {
+            continue;
+        }
+        recipes += 1;
+        let hw = &raws[h];
+        let hi = &hists[h];
+        let ps = hi.pagesize as usize;
+        let upto = r["upto"].as_i64().unwrap_or(0).max(0) as usize;
+        let slot = r["slot"].as_i64().unwrap_or(0) as usize;
+        let expect = r["expect"].as_i64().unwrap_or(0);
+        let own = r["damaged_commit"].as_i64().unwrap_or(0);
+        let mut img: Vec<u8> = Vec::new();
+        for wr in hw.iter().take(upto.min(hw.len())) {
+            apply(&mut img, wr, None);
+        }
+        let flen = if upto > 0 { *hi.flen.get(&((upto - 1) as u64)).unwrap_or(&0) } else { 0 } as usize;
+        let want = flen.max((hi.np0 * hi.pagesize) as usize);
+        if img.len() < want {
+            img.resize(want, 0);
+        }
+        let base = slot * ps;
+        // the damage patterns: (name, significant?, image)
+        let mut pats: Vec<(String, bool, Vec<(usize, u8)>)> = Vec::new();
+        let mut off = 0;
+        while off < ps {
+            for m in &masks {
+                pats.push((format!("byte{}^{:#x}", off, m), significant(off), vec![(off, img[base + off] ^ m)]));
+            }
+            off += if off < 112 { 1 } else { bstride };
+        }
+        pats.push(("zero-page".into(), true, (0..ps).map(|o| (o, 0u8)).collect()));
+        pats.push(("zero-record".into(), true, (32..104).map(|o| (o, 0u8)).collect()));
+        pats.push(("ones-page".into(), true, (0..ps).map(|o| (o, 0xffu8)).collect()));
+        for i in 0..nrandom {
+            let start = rng.gen_range(0..ps);
+            let len = rng.gen_range(1..=(ps - start).min(64));
+            let bytes: Vec<(usize, u8)> = (start..start + len).map(|o| (o, rng.gen::<u8>())).collect();
+            let sig = bytes.iter().any(|(o, b)| significant(*o) && img[base + *o] != *b);
+            pats.push((format!("random{}@{}+{}", i, start, len), sig, bytes));
+        }
+        for (pi, (pname, sig, bytes)) in pats.iter().enumerate() {
+            std::fs::write(&progress, format!("{} {}", idx, pi)).ok();
+            crate::tick();
+            let mut im = img.clone();
+            let mut changed = false;
+            for (o, b) in bytes {
+                if im[base + o] != *b {
+                    changed = true;
+                }
+                im[base + o] = *b;
+            }
+            if !changed {
+                continue;
+            }
+            images += 1;
+            let path = dir.join("damage.db");
+            std::fs::write(&path, &im).unwrap();
+            let opts = Opts { pagesize: hi.pagesize, num_pages: 32, strict: false, populate: false };
+            let mut world = World::new(prof.clone(), path.clone(), opts);
+            // a significant change must fall back to the other header; elsewhere the layout
+            // cannot tell that anything happened: either header's commit is a correct outcome
+            let allowed: Vec<i64> = if *sig { vec![expect] } else { vec![expect, own] };
+            let o = examine(&mut world, &hi.states, &allowed, pi % 97 == 0);
+            drop(world);
+            let key = if o.ok { format!("{}-recovered", if *sig { "fallback" } else { "benign" }) } else { "BAD".into() };
+            *outcomes.entry(key).or_insert(0) += 1;
+            if !o.ok {
+                bad += 1;
+                if bad <= 300 {
+                    writeln!(w, "{}", json!({"line": idx, "recipe": r, "pattern": pname, "significant": sig, "what": o.what,
+                                              "matched": o.matched,
+                                              "panic": crate::exec::LAST_PANIC.with(|p| p.borrow().clone())}))
+                        .unwrap();
+                }
+            }
+        }
+    }
+    writeln!(w, "{}", json!({"summary": true, "recipes": recipes, "images": images, "bad": bad, "outcomes": outcomes})).unwrap();
+    w.flush().unwrap();
+    let _ = std::fs::remove_dir_all(&dir);
+    let _ = std::fs::remove_file(&progress);
+    0
+}
